@@ -87,6 +87,52 @@ def toRItems (dec : Bytes → Option WireErr) (undecodable : Bytes → Bool) (cf
      | .missing => items)
   | _ => items
 
+/-! ## the typed wrapper `ServerStreamForClient` (client_stream.go)
+
+  `Receive() bool`, `Err() error`, `Close() error` over one conn: the wrapper keeps the error of
+  the first failing `Receive` in `receiveErr`, answers later `Receive`s from it without touching
+  the conn, and `Err()` hides exactly the errors that wrap `io.EOF`. `Close` closes the response
+  side of the conn and leaves `receiveErr` alone. -/
+
+inductive SOp where
+  | receive | err | close
+  deriving DecidableEq, Repr
+
+inductive SOut where
+  | recv (m : Option Bytes)          -- `some m`: Receive() = true and Msg() = m; `none`: false
+  | err (code : Option Nat)          -- Err(): nil or the code
+  | closed
+  deriving DecidableEq, Repr
+
+structure SState where
+  conn : RState
+  receiveErr : Option (Nat × Bool)   -- (code, wrapsEOF)
+  deriving DecidableEq, Repr
+
+def SState.start (items : List RItem) : SState := { conn := { stored := none, items := items }, receiveErr := none }
+
+def sstep (s : SState) : SOp → SOut × SState
+  | .receive =>
+    match s.receiveErr with
+    | some _ => (.recv none, s)
+    | none =>
+      match receiveStep s.conn with
+      | (.msg m, c) => (.recv (some m), { s with conn := c })
+      | (.eof, c) => (.recv none, { conn := c, receiveErr := some (codeUnknown, true) })
+      | (.fail code, c) => (.recv none, { conn := c, receiveErr := some (code, false) })
+  | .err =>
+    (match s.receiveErr with
+     | some (code, false) => .err (some code)
+     | _ => .err none, s)
+  | .close => (.closed, s)
+
+def srun : SState → List SOp → List SOut × SState
+  | s, [] => ([], s)
+  | s, op :: rest =>
+    let (o, s1) := sstep s op
+    let (os, s2) := srun s1 rest
+    (o :: os, s2)
+
 /-! ## sending once the peer is gone -/
 
 inductive PipeState where
